@@ -500,8 +500,35 @@ def rule_TRAIL(ctx):
                        'a whole number of items leaves trailing bits behind (later appends fail, tobytes() is too long)', loc=f.loc(x))
             else:
                 r.ok(f'{f.key}:{norm(x)}')
+    # ... and what a public method writes into the MIDDLE of the data (slice assignment, insert, overwrite) is encoded items: the
+    # raw .data of another Array may carry that Array's trailing bits, which would land between two items
+    n_mid = 0
+    for name, f in sorted(arr.methods.items()):
+        if name.startswith('_') and not name.startswith('__'):
+            continue
+        for x in own_walk(f.node):
+            v = None
+            if isinstance(x, ast.Assign) and len(x.targets) == 1 and isinstance(x.targets[0], ast.Subscript) and ast.unparse(x.targets[0].value) == 'self.data' \
+                    and isinstance(x.targets[0].slice, ast.Slice):
+                v = x.value
+            elif isinstance(x, ast.Call) and isinstance(x.func, ast.Attribute) and x.func.attr in ('insert', 'overwrite') and ast.unparse(x.func.value) == 'self.data' and x.args:
+                v = x.args[0]
+            if v is None:
+                continue
+            n_mid += 1
+            srcs = [v]
+            if isinstance(v, ast.Name):
+                srcs = [y.value for y in own_walk(f.node) if isinstance(y, ast.Assign) and any(isinstance(t, ast.Name) and t.id == v.id for t in y.targets)] or [v]
+            rawdata = [e for e in srcs if isinstance(e, ast.Attribute) and e.attr == 'data' and ast.unparse(e.value) != 'self']
+            if rawdata:
+                r.fail(f.key, x, f"Array.{name} writes {norm(rawdata[0])} - the raw data of another Array, trailing bits included - between items of this one: "
+                       'with trailing bits there, every later item shifts (encode the items, or cut the data to whole items first)', loc=f.loc(x))
+            else:
+                r.ok(f'{f.key}:{norm(x)}')
     if n < 4:
         raise AnalysisError(f'only {n} end-relative accesses of Array data found (floor 4)')
+    if n_mid < 3:
+        raise AnalysisError(f'only {n_mid} writes into the middle of Array data found (floor 3)')
     if n_grow < 3:
         raise AnalysisError(f'only {n_grow} growth sites of Array data behind a trailing-bits refusal found (floor 3)')
     return r
